@@ -243,6 +243,13 @@ func (mvgenSlice) Corpus() [][]string {
 			"w t=0 dts=0 ra=1 p=1", "w t=0 dts=90000 ra=1 p=0", "w t=0 dts=180000 ra=1 p=0", "mv q=-",
 			par(0, "h264", 1), "w t=0 dts=180000 ra=1 p=1", "w t=0 dts=270000 ra=1 p=0", "mv q=-",
 		},
+		// F13b: MPEG-TS, the parameter change at DTS 0 — the only listed segment has a zero duration
+		{
+			tr("h264", 90000, "", "", false, 0),
+			"start variant=ts segcount=3 segmin=1000000000",
+			"w t=0 dts=0 ra=1 p=1", par(0, "h264", 1), "w t=0 dts=0 ra=1 p=1", "mv q=-",
+			"w t=0 dts=90000 ra=1 p=0", "mv q=-", "w t=0 dts=180000 ra=1 p=0", "mv q=-",
+		},
 		// audio-only, three tracks, the third user-marked default; audio first then video
 		{
 			tr("aac", 48000, "", "en", false, 2), tr("opus", 48000, "German", "de", false, 0), tr("aac", 44100, "", "", true, 2),
@@ -776,6 +783,7 @@ func (r *mvgenRunner) Step(line string) []string {
 			return ""
 		})
 		if panicked != "" {
+			// after the repair of bandwidth() this never fires; on a tree without it: the concrete failing input
 			r.fail("F13-zero-duration: index.m3u8 panics with integer divide by zero (segment durations %v)", durs)
 			return []string{"mv panic:div0"}
 		}
@@ -788,6 +796,7 @@ func (r *mvgenRunner) Step(line string) []string {
 			r.fail("index.m3u8 not understood: %s", perr)
 			return []string{"mv unparsable"}
 		}
+		r.oracleZeroDuration(pl, sizes, durs, gaps)
 		r.oracleMv(pl, q, sizes, durs, gaps)
 		return []string{pl.canon()}
 
@@ -814,8 +823,10 @@ func (r *mvgenRunner) Step(line string) []string {
 			mx, avg := gohlslib.VerifBandwidth(sizes, durs, gaps)
 			return fmt.Sprintf("bw %d %d", mx, avg)
 		})
-		// direct oracle: peak and mean bit rate of the listed (non-gap) segments
-		if wantMx, wantAvg, ok := mvPeakMean(sizes, durs, gaps); ok && out != fmt.Sprintf("bw %s %s", wantMx, wantAvg) {
+		// direct oracle: no panic; peak and mean bit rate of the listed (non-gap) segments that have a duration
+		if out == "panic:div0" {
+			r.fail("F13-zero-duration: bandwidth(%s) panics with integer divide by zero", ws[1])
+		} else if wantMx, wantAvg := mvPeakMean(sizes, durs, gaps); out != fmt.Sprintf("bw %s %s", wantMx, wantAvg) {
 			r.fail("bandwidth(%s) = %s, peak/mean are %s/%s", ws[1], out, wantMx, wantAvg)
 		}
 		return []string{out}
@@ -946,22 +957,17 @@ func mvExpectedCodec(t *mvTrackSt) string {
 	return ""
 }
 
-func mvPeakMean(sizes []uint64, durs []time.Duration, gaps []bool) (string, string, bool) {
-	if len(sizes) == 0 {
-		return "0", "0", true
-	}
+// mvPeakMean: peak and mean bit rate (bits per second, rounded down) of the listed non-gap segments. A
+// zero-duration segment (finding F13 / F13b) has no rate and adds no time: it is left out of both, as decided
+// with the repair of F13; when no segment with a duration is listed both numbers are 0.
+func mvPeakMean(sizes []uint64, durs []time.Duration, gaps []bool) (string, string) {
 	peak := big.NewInt(0)
 	sz, du := big.NewInt(0), big.NewInt(0)
-	n := 0
 	e9x8 := big.NewInt(8 * pdSec)
 	for i := range sizes {
-		if gaps[i] {
+		if gaps[i] || durs[i] <= 0 {
 			continue
 		}
-		if durs[i] <= 0 {
-			return "", "", false
-		}
-		n++
 		b := new(big.Int).Mul(new(big.Int).SetUint64(sizes[i]), e9x8)
 		b.Div(b, big.NewInt(int64(durs[i])))
 		if b.Cmp(peak) > 0 {
@@ -970,12 +976,12 @@ func mvPeakMean(sizes []uint64, durs []time.Duration, gaps []bool) (string, stri
 		sz.Add(sz, new(big.Int).SetUint64(sizes[i]))
 		du.Add(du, big.NewInt(int64(durs[i])))
 	}
-	if n == 0 {
-		return "", "", false
+	if du.Sign() == 0 {
+		return peak.String(), "0"
 	}
 	mean := new(big.Int).Mul(sz, e9x8)
 	mean.Div(mean, du)
-	return peak.String(), mean.String(), true
+	return peak.String(), mean.String()
 }
 
 // ---- independent reader of the multivariant playlist ----
@@ -1148,6 +1154,50 @@ func (r *mvgenRunner) oracleStartAccepted(variant string, segCount int) {
 	}
 }
 
+// oracleZeroDuration: what remains of finding F13 after the repair of bandwidth() (known finding F13b): a
+// listed non-gap segment with a zero duration. The media playlist of the leading stream lists it with
+// `#EXTINF:0.00000`; when no other segment is listed the variant says BANDWIDTH=0,AVERAGE-BANDWIDTH=0.
+func (r *mvgenRunner) oracleZeroDuration(pl *mvPlaylist, sizes []uint64, durs []time.Duration, gaps []bool) {
+	zero, timed := 0, 0
+	for i := range durs {
+		if gaps[i] {
+			continue
+		}
+		if durs[i] <= 0 {
+			zero++
+		} else {
+			timed++
+		}
+	}
+	if zero == 0 {
+		return
+	}
+	bwTxt := ""
+	if len(pl.variants) == 1 {
+		bwTxt = fmt.Sprintf("; BANDWIDTH=%s AVERAGE-BANDWIDTH=%s", pl.variants[0]["BANDWIDTH"], pl.variants[0]["AVERAGE-BANDWIDTH"])
+		if timed == 0 {
+			bwTxt += " (no listed segment has a duration)"
+		}
+	}
+	extinf := ""
+	for _, s := range r.streams {
+		if s.IsLeading {
+			if body, code := pdGet(r.m, s.ID+"_stream.m3u8"); code == http.StatusOK {
+				n := 0
+				for _, l := range strings.Split(string(body), "\n") {
+					if strings.HasPrefix(l, "#EXTINF:") {
+						if ns, ok := pdDecimalNs(strings.TrimSuffix(strings.TrimPrefix(l, "#EXTINF:"), ",")); ok && ns == 0 {
+							n++
+						}
+					}
+				}
+				extinf = fmt.Sprintf("; %s_stream.m3u8 has %d entries with #EXTINF:0", s.ID, n)
+			}
+		}
+	}
+	r.fail("F13b-zero-duration-segment: %d listed segment(s) with zero duration (segment durations %v)%s%s", zero, durs, extinf, bwTxt)
+}
+
 func (r *mvgenRunner) oracleMv(pl *mvPlaylist, q string, sizes []uint64, durs []time.Duration, gaps []bool) {
 	suffix := ""
 	if q != "" {
@@ -1275,11 +1325,20 @@ func (r *mvgenRunner) oracleMv(pl *mvPlaylist, q string, sizes []uint64, durs []
 	// bandwidth
 	bw, _ := strconv.ParseInt(v["BANDWIDTH"], 10, 64)
 	avg, _ := strconv.ParseInt(v["AVERAGE-BANDWIDTH"], 10, 64)
-	if !(bw >= avg && avg > 0) {
+	timedSeg, zeroSeg := false, false
+	for i := range durs {
+		timedSeg = timedSeg || (!gaps[i] && durs[i] > 0)
+		zeroSeg = zeroSeg || (!gaps[i] && durs[i] <= 0)
+	}
+	if bw < avg {
+		r.fail("BANDWIDTH %d >= AVERAGE-BANDWIDTH %d violated", bw, avg)
+	}
+	if avg <= 0 && !(zeroSeg && !timedSeg) {
+		// (when only zero-duration segments are listed AVERAGE-BANDWIDTH is 0: reported by oracleZeroDuration as F13b)
 		r.fail("BANDWIDTH %d >= AVERAGE-BANDWIDTH %d > 0 violated", bw, avg)
 	}
 	if len(r.tracks) == 1 || r.variant == "ts" {
-		if p, m, ok := mvPeakMean(sizes, durs, gaps); ok && (v["BANDWIDTH"] != p || v["AVERAGE-BANDWIDTH"] != m) {
+		if p, m := mvPeakMean(sizes, durs, gaps); v["BANDWIDTH"] != p || v["AVERAGE-BANDWIDTH"] != m {
 			r.fail("single-stream muxer: BANDWIDTH/AVERAGE %s/%s, peak/mean of the listed segments %s/%s", v["BANDWIDTH"], v["AVERAGE-BANDWIDTH"], p, m)
 		}
 	}
